@@ -484,6 +484,12 @@ theorem cumops_unitQuat_rounded (fl : UQ → UQ) (u : ℝ) (hu : 0 ≤ u) (hfl :
     UQ.dist (cumops (rounded fl UQ.mul) L v j) (seg UQ.mul v 0 j) ≤ (strides L).length * (2 * L * (4 * u + 2 * u)) + j * u :=
   cumops_rounded_vs_exact unitQuat_exactIso fl u hu hfl L v j hj
 
+/-- what "associative up to round-off" means for the computed SO3 product (the hypothesis C12 makes of `ops`, and the law C03
+measures): the two bracketings of a rounded triple product differ by at most `4u` -/
+theorem unitQuat_rounded_assoc (fl : UQ → UQ) (u : ℝ) (hu : 0 ≤ u) (hfl : ∀ x, UQ.dist (fl x) x ≤ u) (a b c : UQ) :
+    UQ.dist (rounded fl UQ.mul (rounded fl UQ.mul a b) c) (rounded fl UQ.mul a (rounded fl UQ.mul b c)) ≤ 4 * u :=
+  (approxAssoc_of_rounding unitQuat_exactIso fl u hu hfl).assoc a b c
+
 /-- non-vacuity: a rounding map that is NOT the identity — every product is perturbed by the fixed unit quaternion
 `r₀ = (0.6, 0, 0, 0.8)`; its error is `u = d(r₀, 1)` by the isometry -/
 noncomputable def r0 : UQ := ⟨⟨0.6, 0, 0, 0.8⟩, by unfold SO3.Valid; lie_unfold; norm_num⟩
